@@ -393,6 +393,147 @@ def section_fl(ctx) -> None:
                               f'fails a monitor)')
 
 
+# ------------------------------------------------------------- section ww
+class _Fault(Exception):
+    pass
+
+
+async def ww_one(cls_name: str, existed: bool, body: str, fault: bool) -> dict:
+    """one `async with Cls.with_write(path)` on a temporary directory.
+    body: 'none' | 'touch' | 'empty' (Subscriptions: remove the last entry) |
+          'raise' | 'touch-raise' | 'cancel';  fault: os.rename / os.remove raise
+    while the with-statement is being left"""
+    import asyncio
+    import errno
+    import os
+    import shutil
+    import tempfile
+    from unittest import mock
+    from pymap.backend.maildir.subscriptions import Subscriptions
+    from pymap.backend.maildir.uidlist import UidList
+    cls = {'Subscriptions': Subscriptions, 'UidList': UidList}[cls_name]
+    d = tempfile.mkdtemp(prefix='pymapverif-ww-')
+    try:
+        if existed:
+            async with cls.with_write(d) as obj:
+                if cls is Subscriptions:
+                    obj.add('f')
+                else:
+                    obj.touch()
+            assert os.path.exists(cls.get_file(d))
+        acts: list[str] = []
+        info = {}
+        real_rename, real_remove = os.rename, os.remove
+        orig_write, orig_delete = cls.file_write, cls.file_delete
+
+        def file_write(self):
+            acts.append('write')
+            return orig_write(self)
+
+        def file_delete(self):
+            acts.append('delete')
+            return orig_delete(self)
+
+        def rename(a, b, *args, **kw):
+            if fault and str(b).startswith(d):
+                raise OSError(errno.ENOSPC, 'No space left on device')
+            return real_rename(a, b, *args, **kw)
+
+        def remove(a, *args, **kw):
+            if fault and str(a).startswith(d):
+                raise FileNotFoundError(a)
+            return real_remove(a, *args, **kw)
+
+        raised = None
+        with mock.patch.object(cls, 'file_write', file_write), \
+                mock.patch.object(cls, 'file_delete', file_delete), \
+                mock.patch.object(os, 'rename', rename), mock.patch.object(os, 'remove', remove):
+            try:
+                async with cls.with_write(d) as obj:
+                    info['held'] = os.path.exists(cls.get_lock(d))
+                    if body in ('touch', 'touch-raise'):
+                        if cls is Subscriptions:
+                            obj.add('g')
+                        else:
+                            obj.touch()
+                    elif body == 'empty':
+                        if cls is Subscriptions:
+                            obj.remove('f')
+                        else:
+                            obj.touch()
+                    info['touched'], info['empty'] = obj.touched, bool(obj.empty)
+                    if body in ('raise', 'touch-raise'):
+                        raise _Fault()
+                    if body == 'cancel':
+                        raise asyncio.CancelledError()
+            except BaseException as exc:
+                raised = type(exc).__name__
+        released = not os.path.exists(cls.get_lock(d))
+        second = None
+        try:
+            async def again():
+                async with cls.with_write(d):
+                    return True
+            second = await asyncio.wait_for(again(), 0.5)
+        except BaseException as exc:
+            second = type(exc).__name__
+        return {'cls': cls_name, 'existed': existed, 'body': body, 'fault': fault,
+                'held': info.get('held'), 'touched': info.get('touched', False),
+                'empty': info.get('empty', False), 'acts': acts, 'raised': raised,
+                'released': released, 'second': second}
+    finally:
+        shutil.rmtree(d, ignore_errors=True)
+
+
+def section_ww(ctx) -> None:
+    """the layer that uses FileLock: maildir io.py `with_write` (UidList,
+    Subscriptions) with faults in the body and in the exit flush"""
+    from ..pymap_env import run as arun
+    cases, descr = [], []
+    for cls_name in ('Subscriptions', 'UidList'):
+        for existed in (False, True):
+            for body in ('none', 'touch', 'empty', 'raise', 'touch-raise', 'cancel'):
+                for fault in (False, True):
+                    o = arun(ww_one(cls_name, existed, body, fault), timeout=30)
+                    ctx.count(('ww', cls_name, existed, body, fault), nontrivial=True)
+                    replay = {'section': 'ww', 'cls': cls_name, 'existed': existed,
+                              'body': body, 'fault': fault}
+                    failed = False
+                    if not o['held']:
+                        ctx.failure('filelock_excl', f'with_write body ran without the lock file: {o}',
+                                    replay, {'kind': 'withwrite_not_locked'})
+                        failed = True
+                    if not o['released'] or o['second'] is not True:
+                        ctx.failure('filelock_released',
+                                    f'{cls_name}.with_write (file existed: {existed}, body: {body}, '
+                                    f'exit flush fails: {fault}) left the with-statement '
+                                    f'{"raising " + o["raised"] if o["raised"] else "normally"} after '
+                                    f'{o["acts"] or "no flush"}, but the lock file is '
+                                    f'{"gone" if o["released"] else "still there"} and a second '
+                                    f'with_write got {o["second"]!r}', replay,
+                                    {'kind': 'withwrite_not_released'})
+                        failed = True
+                    body_fails = body in ('raise', 'touch-raise', 'cancel')
+                    acts = [{'write': 'WFlushWrite', 'delete': 'WFlushDelete'}[a] for a in o['acts']]
+                    if o['released']:
+                        acts.append('WRelease')
+                    term = (f'(mkWRun {T.boolean(body_fails)} {T.boolean(o["touched"])} '
+                            f'{T.boolean(o["empty"])} {T.boolean(existed)} {T.boolean(fault)}, '
+                            f'{T.lst(acts) if acts else "(@nil wact)"}, '
+                            f'{T.boolean(o["raised"] is not None)}, '
+                            f'{"Absent" if o["released"] else "Fresh"})')
+                    cases.append(term)
+                    descr.append((replay, failed))
+    bad = ctx.run_cases('with_write', FL_HEADER, 'wrun * list wact * bool * fstate', cases, 'chk_ww')
+    for i in bad:
+        replay, failed = descr[i]
+        if not failed:
+            ctx.disagreement('with_write', replay)
+    if bad and all(descr[i][1] for i in bad):
+        ctx.broken.append(f'correspondence with_write: {len(bad)} runs of the real _FileWriteWith '
+                          f'are not behaviours of the model (each also fails a monitor)')
+
+
 # ------------------------------------------------------------------ section thr
 def section_threading(ctx) -> None:
     """the threading twin: writer inside, reader 1 blocked, reader 2 must not get in"""
@@ -457,6 +598,7 @@ def run(ctx) -> None:
     algo = os.environ.get('VERIF_C20_ALGO', 'Fixed')
     section_rw(ctx, algo)
     section_fl(ctx)
+    section_ww(ctx)
     section_threading(ctx)
     ctx.exhaustive = True
 
@@ -481,6 +623,10 @@ def replay(ctx, data) -> int:
                   'lock file:', rec['view'])
         print('two-writers monitor:', writers_monitor(r.log))
         r.close()
+        return 0
+    if data.get('section') == 'ww':
+        from ..pymap_env import run as arun
+        print(arun(ww_one(data['cls'], data['existed'], data['body'], data['fault']), timeout=30))
         return 0
     if data.get('section') == 'thr':
         section_threading(ctx)
